@@ -550,27 +550,6 @@ Lemma fs_event_start_watch_witness :
 Proof. exists (mkW [false] [] []), l0. vm_compute. split; reflexivity. Qed.
 
 (* ---------------------------------------------------------------------- *)
-(* uv_loop_init                                                             *)
-Lemma loop_init_backend_fd_witness :
-  exists (w : world) (l : ledger),
-    o_res (uv_loop_init false l w) = Ret (RcErr EMFILE) /\
-    l_mem (o_led (uv_loop_init false l w)) = l_mem l /\
-    l_fds (o_led (uv_loop_init false l w)) = l_fds l + 1.
-Proof.
-  exists (mkW [] [Ok; Fail ENOMEM; Fail EMFILE] []), l0. vm_compute. repeat split.
-Qed.
-
-Lemma loop_init_abort_witness :
-  exists (w : world) (l : ledger) (s : site),
-    o_res (uv_loop_init true l w) = Abort s /\ permitted s = false /\
-    In (Fail EMFILE) (w_sys w) /\ Forall (fun a => a = Ok \/ a = Fail EMFILE) (w_sys w).
-Proof.
-  exists (mkW [] [Ok; Ok; Ok; Ok; Ok; Fail EMFILE] []), l0, SSignalGlobalInit.
-  split; [vm_compute; reflexivity|]. split; [reflexivity|]. split; [cbn; intuition|].
-  repeat (apply Forall_cons; [auto|]). apply Forall_nil.
-Qed.
-
-(* ---------------------------------------------------------------------- *)
 (* uv_spawn: accounting on every error return                               *)
 Lemma close_fd_acc l w : same_accounting l (snd (fst (uv_close_fd l w))).
 Proof.
@@ -695,3 +674,155 @@ Lemma spawn_examples :
   o_res (uv_spawn [true; true; false] true l0 (mkW [] [] [])) = Ret RcOk /\
   l_fds (o_led (uv_spawn [true; true; false] true l0 (mkW [] [] []))) = 2.
 Proof. vm_compute. repeat split. Qed.
+
+(* ---------------------------------------------------------------------- *)
+(* uv_loop_init                                                             *)
+(* every return of uv_loop_init: success, an error code with the accounting restored and no
+   descriptor left except the process-wide signal lock pipe of the very first loop, or abort()
+   in maybe_resize (permitted) / the process-wide signal initialisation (item 23) *)
+Lemma close_fd_fds l w : l_fds (snd (fst (uv_close_fd l w))) = l_fds l - 1.
+Proof. destruct (close_fd_spec l w) as [E _]. rewrite E. reflexivity. Qed.
+
+Definition loop_init_post (first : bool) (l : ledger) (o : out) : Prop :=
+  o_res o = Ret RcOk \/
+  (exists s, o_res o = Abort s /\ (s = SMaybeResize \/ (s = SSignalGlobalInit /\ first = true))) \/
+  (exists r, o_res o = Ret r /\ r <> RcOk /\ same_accounting l (o_led o) /\
+     (l_fds (o_led o) = l_fds l \/ (first = true /\ l_fds (o_led o) = l_fds l + 2))).
+
+Ltac li_close :=
+  match goal with
+  | |- context [uv_close_fd ?l ?w] =>
+    let C := fresh "C" in let D := fresh "D" in
+    pose proof (close_fd_acc l w) as C; pose proof (close_fd_fds l w) as D;
+    destruct (uv_close_fd l w) as [[? ?] ?]; cbn [fst snd] in C, D
+  end.
+Ltac li_done :=
+  first
+  [ left; reflexivity
+  | right; left; eexists; split; [reflexivity|]; first [left; reflexivity | right; split; reflexivity]
+  | right; right; eexists; split; [reflexivity|]; split; [discriminate|];
+    unfold same_accounting in *; cbn in *;
+    repeat match goal with H : _ \/ (_ /\ _) |- _ => destruct H as [H|[? H]] end;
+    (split; [intuition lia|]); first [left; lia | right; split; [first [reflexivity|assumption]|lia]] ].
+
+Lemma loop_init_partial first l w : loop_init_post first l (uv_loop_init first l w).
+Proof.
+  unfold loop_init_post, uv_loop_init.
+  destruct (alloc PCalloc w) as [b w1]. destruct b; cbn [negb]; [|li_done].
+  destruct (sys PEpollCreate w1) as [a w2]. destruct a; [|li_done|li_done].
+  destruct (if first then sys POpen w2 else (Ok, w2)) as [a0 w3].
+  destruct (sys PIouSetup w3) as [s w4].
+  assert (K : forall (ring : bool) (l5 : ledger) (w5 : world),
+    same_accounting (add_mem 1 l) l5 -> l_fds l5 = l_fds l + 1 + (if ring then 1 else 0) ->
+    loop_init_post first l
+    (let loop_delete := fun (l : ledger) (w : world) =>
+        let '(l, w) := if ring then let '(_, l, w) := uv_close_fd l w in (l, w) else (l, w) in
+        let '(_, l, w) := uv_close_fd l w in (l, w) in
+     let '(ab, l, w) :=
+        if first then
+          let '(p, w) := sys PPipe2 w5 in
+          match p with
+          | Ok => let '(u, w) := sysr PWrite w in
+                  (match u with Ok => None | _ => Some SSignalGlobalInit end, add_fds 2 l5, w)
+          | _ => (Some SSignalGlobalInit, l5, w)
+          end
+        else (None, l5, w5) in
+      match ab with
+      | Some s => mkO (Abort s) l None w
+      | None =>
+        let '(p, w) := sys PPipe2 w in
+        match p with
+        | Fail e => let '(l, w) := loop_delete l w in mkO (Ret (RcErr e)) (add_mem (-1) l) None w
+        | Intr => let '(l, w) := loop_delete l w in mkO (Ret RcIntr) (add_mem (-1) l) None w
+        | Ok =>
+          let l := add_fds 2 l in
+          let '(ab, l, w) := maybe_resize true l w in
+          match ab with
+          | Some s => mkO (Abort s) l None w
+          | None =>
+            let l := add_mem 1 l in
+            let '(e, w) := sys PEventfd w in
+            match e with
+            | Ok => mkO (Ret RcOk) (add_hq 2 (add_fds 1 l)) None w
+            | Fail er =>
+              let '(_, l, w) := uv_close_fd l w in
+              let '(_, l, w) := uv_close_fd l w in
+              let '(l, w) := loop_delete l w in
+              mkO (Ret (RcErr er)) (add_mem (-2) l) None w
+            | Intr =>
+              let '(_, l, w) := uv_close_fd l w in
+              let '(_, l, w) := uv_close_fd l w in
+              let '(l, w) := loop_delete l w in
+              mkO (Ret RcIntr) (add_mem (-2) l) None w
+            end
+          end
+        end
+      end)).
+  { intros ring l5 w5 SA FD. unfold loop_init_post. cbv zeta.
+    assert (K2 : forall (l6 : ledger) (w6 : world), same_accounting (add_mem 1 l) l6 ->
+       (l_fds l6 = l_fds l + 1 + (if ring then 1 else 0) \/
+        (first = true /\ l_fds l6 = l_fds l + 3 + (if ring then 1 else 0))) ->
+       loop_init_post first l
+       (let '(p, w) := sys PPipe2 w6 in
+        match p with
+        | Fail e => let '(l, w) := (let '(l, w) := if ring then let '(_, l, w) := uv_close_fd l6 w in (l, w) else (l6, w) in
+                                    let '(_, l, w) := uv_close_fd l w in (l, w)) in mkO (Ret (RcErr e)) (add_mem (-1) l) None w
+        | Intr => let '(l, w) := (let '(l, w) := if ring then let '(_, l, w) := uv_close_fd l6 w in (l, w) else (l6, w) in
+                                  let '(_, l, w) := uv_close_fd l w in (l, w)) in mkO (Ret RcIntr) (add_mem (-1) l) None w
+        | Ok =>
+          let l := add_fds 2 l6 in
+          let '(ab, l, w) := maybe_resize true l w in
+          match ab with
+          | Some s => mkO (Abort s) l None w
+          | None =>
+            let l := add_mem 1 l in
+            let '(e, w) := sys PEventfd w in
+            match e with
+            | Ok => mkO (Ret RcOk) (add_hq 2 (add_fds 1 l)) None w
+            | Fail er =>
+              let '(_, l, w) := uv_close_fd l w in
+              let '(_, l, w) := uv_close_fd l w in
+              let '(l, w) := (let '(l, w) := if ring then let '(_, l, w) := uv_close_fd l w in (l, w) else (l, w) in
+                              let '(_, l, w) := uv_close_fd l w in (l, w)) in
+              mkO (Ret (RcErr er)) (add_mem (-2) l) None w
+            | Intr =>
+              let '(_, l, w) := uv_close_fd l w in
+              let '(_, l, w) := uv_close_fd l w in
+              let '(l, w) := (let '(l, w) := if ring then let '(_, l, w) := uv_close_fd l w in (l, w) else (l, w) in
+                              let '(_, l, w) := uv_close_fd l w in (l, w)) in
+              mkO (Ret RcIntr) (add_mem (-2) l) None w
+            end
+          end
+        end)).
+    { intros l6 w6 SA6 FD6. unfold loop_init_post.
+      destruct (sys PPipe2 w6) as [p w7]. destruct p.
+      - unfold maybe_resize. destruct (alloc PRealloc w7) as [b w8]. destruct b; [|li_done].
+        destruct (sys PEventfd w8) as [e w9]. destruct e; [li_done| |].
+        + do 2 li_close. destruct ring; [li_close|]; li_close; li_done.
+        + do 2 li_close. destruct ring; [li_close|]; li_close; li_done.
+      - destruct ring; [li_close|]; li_close; li_done.
+      - destruct ring; [li_close|]; li_close; li_done. }
+    destruct first.
+    - destruct (sys PPipe2 w5) as [p w6]. destruct p; [|li_done|li_done].
+      destruct (sysr PWrite w6) as [u w7]. destruct u; [|li_done|li_done].
+      apply K2; [unfold same_accounting in *; cbn; intuition|]. right. split; [reflexivity|]. cbn. lia.
+    - apply K2; [exact SA|]. left; exact FD. }
+  destruct s.
+  - destruct (sys PMmap w4) as [m1 w5]. destruct (sys PMmap w5) as [m2 w6].
+    destruct m1, m2;
+      try (li_close; apply K with (ring := false); [unfold same_accounting in *; cbn in *; intuition|cbn in *; lia]).
+    apply K with (ring := true); [unfold same_accounting; cbn; intuition|cbn; lia].
+  - apply K with (ring := false); [unfold same_accounting; cbn; intuition|cbn; lia].
+  - apply K with (ring := false); [unfold same_accounting; cbn; intuition|cbn; lia].
+Qed.
+
+Lemma loop_init_abort_witness :
+  exists (w : world) (l : ledger) (s : site),
+    o_res (uv_loop_init true l w) = Abort s /\ permitted s = false /\
+    In (Fail EMFILE) (w_sys w) /\ Forall (fun a => a = Ok \/ a = Fail EMFILE) (w_sys w).
+Proof.
+  exists (mkW [] [Ok; Ok; Ok; Ok; Ok; Fail EMFILE] []), l0, SSignalGlobalInit.
+  split; [vm_compute; reflexivity|]. split; [reflexivity|]. split; [cbn; intuition|].
+  repeat (apply Forall_cons; [auto|]). apply Forall_nil.
+Qed.
+
